@@ -207,7 +207,10 @@ impl Property for C09 {
                     let _ = lg.apply(&digit(2 + c.digits[0] % 7).to_lowercase(), &mut b2);
                     matches!(lg.apply(&x.to_lowercase(), &mut b1), Err(text2num::error::Error::Incomplete)) || matches!(lg.apply(&x.to_lowercase(), &mut b2), Err(text2num::error::Error::Incomplete))
                 };
-                if incomplete || lg.is_linking(&x.to_lowercase()) || text2num::text2digits(&x, lg).is_ok() || v.conj_alts.contains(&x.as_str()) {
+                // (the published linking vocabulary is the harness's copy of the INSIGNIFICANT lists here, not the answer of
+                // is_linking: a lookup that starts accepting contractions / elisions of linking words is exactly what this
+                // relation is meant to notice)
+                if incomplete || v.linking.contains(&x.to_lowercase().as_str()) || text2num::text2digits(&x, lg).is_ok() || v.conj_alts.contains(&x.as_str()) {
                     obs.exclude("derived-word-is-linking-or-number");
                     return Ok(());
                 }
